@@ -1,7 +1,7 @@
 CFG = {
  'files': ['bmtree/allpaths.go', 'bmtree/decode.go'],
  'go': {'bmtree.AllPaths': 'bmtree.AllPaths',
-        'bmtree.Decode': 'bmtree.Decode',
+        'bmtree.Decode': 'bmtree.Decode (in 2 cases of 3 after read-only Decode calls on the same slice with the full masks of heights 0..6 and with the same mask)',
         'bmtree.AllPaths/held': 'bmtree.AllPaths twice, both results read after the second call',
         'bmtree.Decode/held': 'bmtree.Decode twice, both results read after the second call',
         'bmtree.AllPaths/split': 'bmtree.AllPaths on [a,b), [b,c) and [a,c)',
